@@ -400,6 +400,16 @@ func (ri *reflectInspector) recordArgReflected(val ssa.Value, visited map[ssa.Va
 		return ri.recordArgReflected(val.X, visited)
 	case *ssa.MakeInterface:
 		return ri.recordArgReflected(val.X, visited)
+	case *ssa.Phi:
+		// The value depends on the path taken, e.g. an interface variable
+		// assigned in one branch only; any of the edges may reach reflection.
+		var param *ssa.Parameter
+		for _, edge := range val.Edges {
+			if p := ri.recordArgReflected(edge, visited); p != nil && param == nil {
+				param = p
+			}
+		}
+		return param
 	case *ssa.UnOp:
 		for _, ref := range *val.Referrers() {
 			if idx, ok := ref.(ssa.Value); ok {
